@@ -16,11 +16,15 @@ INTERIOR_MUT = ("Cell<", "RefCell<", "Mutex<", "RwLock<", "Atomic", "UnsafeCell<
 # C03 — Kaufman column
 # --------------------------------------------------------------------------- #
 def jacobian_column_write(F, ev, b):
-    """the (form-independent) write of one Jacobian column: returns
-    (allocation term M, column index term k, value term, effect, all effects) or raises AnchorMissing"""
+    """the (form-independent) write of one Jacobian column, in canonical access form (tab.py): returns
+    (matrix container M, column index k, value term, effect, all effects, Canon) or raises AnchorMissing.
+    k is ('iv', n) when the column index is the counter of the iteration over the columns."""
     import effects as fx
+    import tab
+    from rules_panic import nosite
     env = Env(b)
     effs = list(fx.iteration_effects(ev, env))
+    cn = tab.Canon(ev)
     # the matrix that is returned
     ev.fresh_ctx()
     rv = ev.ret_val(env)
@@ -28,13 +32,12 @@ def jacobian_column_write(F, ev, b):
     rets = []
     for a in alts:
         if a[0] == "opt":
-            from rules_stats2 import base_alloc
-            rets.append(base_alloc(a[1]))
-    cw = [w for w in fx.column_writes(effs) if not rets or w[0] in rets]
+            rets.append(nosite(cn.container(a[1])))
+    cw = [w for w in tab.column_writes(cn, effs) if not rets or nosite(w.D) in rets]
     if len(cw) != 1:
         raise AnchorMissing("expected exactly one full write of a column of the returned Jacobian per iteration, found %d" % len(cw))
-    M, k, val, e = cw[0]
-    return M, k, val, e, effs
+    w = cw[0]
+    return w.D, w.idx[0], w.val, w.eff, effs, cn
 
 
 def rule_kaufman_col(F, ev, R, config, rule="R-KAUFMAN-COL"):
@@ -48,19 +51,12 @@ def rule_kaufman_col(F, ev, R, config, rule="R-KAUFMAN-COL"):
             R.bad(rule, config, self_ty, "anchor-missing", "no jacobian()")
             continue
         try:
-            M, k, val, e, effs = jacobian_column_write(F, ev, b)
+            M, k, val, e, effs, cn = jacobian_column_write(F, ev, b)
         except AnchorMissing as ex:
             R.bad(rule, config, b.key, "column-write@" + fl, "%s (undetermined)" % ex, b.j["span"])
             continue
-        # --- index k ↔ column k: k is the enumerate index of the column iteration, or the loop variable of column_mut(k)
-        drv_ok = False
-        if k is not None and k[0] == "field" and k[2] == "0" and k[1][0] == "elem":
-            it = fx.base_iter(k[1][1])
-            drv_ok = it[0] == "call" and it[1].rsplit("::", 1)[-1] == "enumerate"
-        elif k is not None and k[0] == "elem":
-            it = fx.base_iter(k[1])
-            if it[0] == "agg" and it[1].endswith("ops::Range") and dict(it[3]).get("start") == ("const", "usize", 0):
-                drv_ok = True
+        # --- index k ↔ column k: the column written in round k of the iteration over the columns is column k
+        drv_ok = k is not None and k[0] == "iv"
         R.add(rule, config, b.key, "columns-enumerated@" + fl, drv_ok,
               "" if drv_ok else "the column written is not indexed by the enumeration index of the Jacobian's columns (index k ↔ column k): k = %s" % (short(k)[:100] if k else None), b.j["span"])
         # --- allocation (|S|·|R|) × |P|
@@ -68,6 +64,7 @@ def rule_kaufman_col(F, ev, R, config, rule="R-KAUFMAN-COL"):
         while a[0] == "call" and a[1].endswith("assume_init"):
             a = a[3][0]
         okalloc = False
+        is_call_ = is_call
         if a[0] == "call" and len(a[3]) >= 2:
             from rules_stats2 import dimval
             rd, cd = dimval(a[3][0]), dimval(a[3][1])
@@ -98,7 +95,7 @@ def rule_kaufman_col(F, ev, R, config, rule="R-KAUFMAN-COL"):
         okk = False
         if dks and all(d[3] == dks[0][3] for d in dks):
             d = dks[0]
-            okk = fx.norm_elems(d[3][1]) == k and d[3][0] == ("field", me, roles["model"])
+            okk = d[3][1] == k and d[3][0] == ("field", me, roles["model"])
             dk = ("payload", d, "ok", "0")
         R.add(rule, config, fn_key, "derivative-index=column-index@" + fl, okk,
               "" if okk else "the partial derivative is taken w.r.t. `%s` of `%s`, expected the column index k of the problem's model" % (
@@ -591,7 +588,16 @@ def writes_target_on_all_paths(F, ev, body, env, pred, depth=0):
 
 
 def proven_full_overwrite(F, ev, b, bi, t):
+    """the uninitialised matrix allocated at (b, bi) has EVERY column fully written before it can be
+    returned as a success — decided on the canonical column writes (tab.py), so index loops, iterator
+    loops, driven closures (map/for_each/try_for_each + a driver) and writes inside helpers coincide:
+      * a full-column write col(A, k) with k the counter of an iteration whose extent is ncols(A),
+      * executed on every non-failing path of every iteration (through helpers: on all their success paths),
+      * a lazily mapped closure is driven to completion,
+      * a success return of A is reachable only after the iteration ran to exhaustion."""
     import effects as fx
+    import tab
+    from rules_panic import nosite
     from rules_stats2 import base_alloc, dimval
     env = Env(b)
     alloc = ev.call_val(env, bi)
@@ -600,84 +606,64 @@ def proven_full_overwrite(F, ev, b, bi, t):
         a = a[3][0]
     if not (a[0] == "call" and a[1].endswith("uninit") and len(a[3]) == 2):
         return False, "allocation `%s` not recognised (undetermined)" % short(alloc)[:120]
+    cn = tab.Canon(ev)
+    effs = list(fx.iteration_effects(ev, env))
+    A = nosite(cn.container(alloc))
     ncols = dimval(a[3][1])
-    pred = lambda term: is_col_of(term, alloc)
-    # success sites: the matrix returned inside Some/Ok
-    succ_sites = []
-    for sbi, ssi, s in b.stmts():
-        if s["k"] == "assign" and s["place"]["l"] == 0 and s["rv"]["k"] == "agg" and s["rv"].get("variant") in ("Some", "Ok"):
-            v = ev.rvalue(env, s["rv"], (sbi, ssi))
-            if contains(v, lambda x: x == alloc):
-                succ_sites.append(sbi)
-        if s["k"] == "assign" and s["place"]["l"] == 0 and s["rv"]["k"] == "use":
-            v = ev.rvalue(env, s["rv"], (sbi, ssi))
-            if base_alloc(v) == alloc:
-                succ_sites.append(sbi)
-    # ---------- closure form: <column iteration>.map(closure).collect() ----------
-    for cbi, ct in b.calls():
-        if "fn" in ct and ct["fn"]["name"] in ("map", "for_each", "try_for_each") and "Option" not in ct["fn"]["path"] and "Result" not in ct["fn"]["path"]:
-            v = ev.call_val(env, cbi)
-            if v[0] == "call" and len(v[3]) >= 2 and v[3][1][0] == "closure":
-                param = ("elem", fx.base_iter(v[3][0]))
-                probe = fx.column_of(fx.norm_elems(("field", param, "1"))) or fx.column_of(fx.norm_elems(param))
-                if not probe or probe[0] != alloc:
-                    continue
-                cb = F.bodies[v[3][1][1]]
-                cenv = Env(cb, {1: v[3][1], 2: param}, 1)
-                wblocks = writes_target_on_all_paths(F, ev, cb, cenv, pred)
-                if not wblocks:
-                    return False, "the per-column closure never writes its column"
-                ok_returns = [x for x, si, s in cb.stmts() if s["k"] == "assign" and s["place"]["l"] == 0 and s["rv"]["k"] == "agg" and s["rv"].get("variant") in ("Ok", "Some")]
-                if not ok_returns:
-                    ok_returns = cb.exits()
-                if not cb.must_pass(0, ok_returns, wblocks):
-                    return False, "a path through the per-column closure reports success without writing the column (uninitialised memory in the result)"
-                if ct["fn"]["name"] == "map":
-                    cons = consumers(b, ct["dest"]["l"])
-                    if not any(c["kind"] == "call" and c["cid"].rsplit("::", 1)[-1] in ("collect", "for_each", "try_for_each", "count", "sum", "last") for c in cons):
-                        return False, "the per-column map is lazy and never driven to completion"
-                if not covers_all_columns(v[3][0], alloc, ncols, fx):
-                    return False, "the column iteration may end before all columns of the allocation are visited"
-                return True, "closure form, full-column write on every success path of the closure"
-    # ---------- for-loop form ----------
-    for h, blocks in b.natural_loops().items():
-        nxt = None
-        for lb in sorted(blocks):
-            tt = b.blocks[lb]["term"]
-            if tt["k"] == "call" and "fn" in tt and callee_id(tt["fn"]) == "std::iter::Iterator::next":
-                itv = fx.base_iter(ev.operand(env, tt["args"][0], (lb, None)))
-                if contains(itv, lambda x: x == alloc):
-                    nxt = (lb, tt, itv)
-        if nxt is None:
+    ws = [w for w in tab.column_writes(cn, effs) if nosite(w.D) == A]
+    if not ws:
+        return False, "no full-column write into the uninitialised matrix was found (undetermined)"
+    reasons = []
+    for w in ws:
+        k = w.idx[0]
+        if k[0] != "iv":
+            reasons.append("column index `%s` is not the counter of an iteration" % short(k)[:60])
             continue
-        lb, tt, itv = nxt
-        if not covers_all_columns(itv, alloc, ncols, fx):
-            return False, ("the loop `%s` may end before all %s columns of the allocation are written: columns may stay uninitialised"
-                           % (short(itv)[:80], short(ncols)[:40]))
-        sw = None
-        for c in consumers(b, tt["dest"]["l"]):
-            if c["kind"] == "discr" and b.blocks[c["block"]]["term"]["k"] == "switch":
-                sw = c["block"]
-        if sw is None:
-            return False, "loop test not found (undetermined)"
-        yes, no = variant_edge(b, sw, "Some")
-        exh, _ = variant_edge(b, sw, "None")
-        if not yes or not exh:
-            return False, "loop edges not found (undetermined)"
-        body_entry = yes[0][1]
-        wblocks = set(x for x in writes_target_on_all_paths(F, ev, b, env, pred) if x in blocks)
-        if not wblocks:
-            return False, "the loop body never writes the bound column"
-        r = b.reachable(body_entry, avoid=wblocks)
-        if h in r and body_entry != h:
-            return False, "a path through the loop body returns to the loop header without writing the column (column left uninitialised)"
-        # the matrix may be returned as a success only after the loop ran to exhaustion
-        r2 = b.reachable(h, avoid_edges=set(exh))
-        bad = [x for x in succ_sites if x in r2]
-        if bad:
-            return False, "the matrix can be returned after leaving the loop early (remaining columns uninitialised)"
-        return True, "for-loop form, one full-column write per iteration, returned only after exhaustion"
-    return False, "no recognised initialisation pattern for the uninitialised matrix (undetermined)"
+        if not tab.extent_covers(cn, w, k, ncols):
+            reasons.append("the iteration (`%s` rounds) may end before all %s columns of the allocation are written: columns may stay uninitialised"
+                           % (short(cn.extent.get(k[1]))[:80] if cn.extent.get(k[1]) else "?", short(ncols)[:40]))
+            continue
+        ok, why = tab.written_each_iteration(cn, w, k)
+        if not ok:
+            reasons.append(why + " (column left uninitialised)")
+            continue
+        key = [kk for kk, n in cn.keys.items() if n == k[1]][0]
+        m = key[1]
+        chain = tab.chain_of(w.eff, F)
+        if m[0] == "next":
+            _, bkey, nblk, path = m
+            body = chain[len(path)][0]
+            h, blks = min([(h_, bl) for h_, bl in body.natural_loops().items() if nblk in bl], key=lambda x: len(x[1]))
+            exh = None
+            nt = body.blocks[nblk]["term"]
+            for (sb, si, pk, variants) in body.discr_switches():
+                if sb in blks and pk[0] == nt["dest"]["l"] and not pk[1]:
+                    exh, _ = variant_edge(body, sb, "None")
+            if not exh:
+                reasons.append("loop exit not found (undetermined)")
+                continue
+            r2 = body.reachable(h, avoid_edges=set(exh))
+            if any(x in r2 for x in tab.success_returns(body)):
+                reasons.append("the matrix can be returned after leaving the loop early (remaining columns uninitialised)")
+                continue
+            return True, "loop form, one full-column write per iteration over all %s columns, success only after exhaustion" % short(ncols)[:40]
+        else:
+            clo_key, bkey, cbi, path = m
+            body = chain[len(path)][0]
+            ct = body.blocks[cbi]["term"]
+            nm = ct["fn"]["name"] if "fn" in ct else ""
+            if nm in ("map", "map_init", "inspect", "filter_map"):
+                cons = consumers(body, ct["dest"]["l"])
+                if not any(c["kind"] == "call" and c["cid"].rsplit("::", 1)[-1] in ("collect", "for_each", "try_for_each", "count", "sum", "last", "try_fold", "fold", "collect_into_vec") for c in cons):
+                    reasons.append("the per-column map is lazy and never driven to completion")
+                    continue
+                # a driver that stops at the first failure (collect into Result, try_for_each) or folds: the
+                # collected status must decide the success return — R-JAC-ABSENT; here: not `last`/`fold` of statuses
+                if any(c["kind"] == "call" and c["cid"].rsplit("::", 1)[-1] in ("last", "fold", "reduce", "reduce_with", "find", "any", "all") for c in cons):
+                    reasons.append("the per-column results are reduced by `%s`: a failed column can be hidden" % [c["cid"].rsplit("::", 1)[-1] for c in cons if c["kind"] == "call"][0])
+                    continue
+            return True, "closure form, full-column write on every success path of the closure, all %s columns" % short(ncols)[:40]
+    return False, (reasons[0] if reasons else "no recognised initialisation pattern for the uninitialised matrix (undetermined)")
 
 
 def covers_all_columns(it, alloc, ncols, fx):
@@ -772,33 +758,30 @@ def rule_sibling(F, ev, R, config, rule="R-SIBLING"):
         R.add(rule, config, bp.key, m + "-value-equal", ok, "" if ok else "return value of parallel %s() differs from the sequential one:\n   seq %s\n   par %s" % (m, short(vs)[:300], short(vp)[:300]), bp.j["span"])
         if m == "jacobian":
             try:
-                Ms, ks, vs_, es, effs_s = jacobian_column_write(F, ev, bs)
-                Mp, kp, vp_, ep, effs_p = jacobian_column_write(F, ev, bp)
-                sig_s = effects_signature(effs_s, pretty=False)
-                sig_p = effects_signature(effs_p, pretty=False)
-                ok = sig_s == sig_p and canon(Ms) == canon(Mp) and canon(ks) == canon(kp)
+                Ms, ks, vs_, es, effs_s, cns = jacobian_column_write(F, ev, bs)
+                Mp, kp, vp_, ep, effs_p, cnp = jacobian_column_write(F, ev, bp)
+                sig_s = effects_signature(effs_s, cns, vs_, pretty=False)
+                sig_p = effects_signature(effs_p, cnp, vp_, pretty=False)
+                ok = sig_s == sig_p and canon(Ms) == canon(Mp) and canon(ks) == canon(kp) and ks[0] == "iv"
                 R.add(rule, config, bp.key, "column-closure-effects-equal", ok,
                       "equal normal forms of the written column, equal allocation, index and model calls" if ok else
                       "the per-column computation of the parallel jacobian() differs from the sequential one:\n   seq %s\n   par %s" % (
-                          effects_signature(effs_s, True), effects_signature(effs_p, True)), bp.j["span"])
+                          effects_signature(effs_s, cns, vs_, True), effects_signature(effs_p, cnp, vp_, True)), bp.j["span"])
             except AnchorMissing as ex:
                 R.bad(rule, config, bp.key, "column-closure-effects-equal", "%s (undetermined)" % ex, bp.j["span"])
     R.floor(rule, config, 5, "4 methods + column closure")
 
 
-def effects_signature(effs, pretty=False):
-    """(model calls, normal forms of full-column writes) of Effect objects, canonicalised for
-    the seq/par comparison"""
-    import effects as fx
+def effects_signature(effs, cn, val, pretty=False):
+    """(model calls, normal form of the full-column write) in canonical access form (loop / closure /
+    index-loop forms coincide), canonicalised for the seq/par comparison"""
     N = nfmod.NF()
-    calls = sorted(repr((e.cid, tuple(canon(a) for a in e.args))) for e in effs if e.kind == "call" and e.cid.startswith(TRAIT_MODEL))
-    writes = []
-    for M, k, val, e in fx.column_writes(effs):
-        n = N.nf(canon(val))
-        writes.append((repr(canon(M)), repr(canon(k)), nfmod.show(n, short) if pretty else repr(sorted(n.items(), key=repr))))
+    calls = sorted(set(repr((e.cid, tuple(canon(cn.canon(a)) for a in e.raw))) for e in effs if e.kind == "call" and e.cid.startswith(TRAIT_MODEL)))
+    n = N.nf(canon(val))
+    w = nfmod.show(n, short) if pretty else repr(sorted(n.items(), key=repr))
     if pretty:
-        return "writes %s; model calls %d" % ([w[2][:200] for w in writes], len(calls))
-    return (tuple(calls), tuple(sorted(writes)))
+        return "writes %s; model calls %d" % (w[:300], len(calls))
+    return (tuple(calls), w)
 
 
 def closure_signature(effects, pretty=False):
